@@ -256,6 +256,7 @@ const (
 	sStranger
 	sNobody
 	sAlphaEntry // Alphabet with CalledByEntry scope (valid for direct calls)
+	sFormer     // the Alphabet multi-signature of a committee that has been voted out (after a re-election)
 )
 
 func (e *env) classSigners(c int) ([]world.SignerSpec, string) {
@@ -270,6 +271,10 @@ func (e *env) classSigners(c int) ([]world.SignerSpec, string) {
 		return []world.SignerSpec{world.G(e.stranger)}, "stranger"
 	case sAlphaEntry:
 		return []world.SignerSpec{world.Scoped(e.w.Alphabet, transaction.CalledByEntry)}, "alphabet-entry"
+	case sFormer:
+		if e.w.FormerAlphabet != nil {
+			return []world.SignerSpec{world.G(e.w.FormerAlphabet)}, "former-alphabet"
+		}
 	}
 	return nil, "nobody"
 }
